@@ -464,6 +464,27 @@ class Interp(StmtMixin, ExtMixin, OpsMixin, InterpCore):
                 sl = self.match_slice_rows(fake, env)
                 if sl is not None and len(sl[2]) == 1 and sl[2][0] is node.elt:
                     return SeqV("rows", base=sl[0], per=sl[1], flush=True)
+            elif isinstance(g.iter, ast.Call) and not isinstance(node.elt, ast.Subscript):
+                # [f(X[i:i+K]) for i in range(0, len(X), K)]: one string per row group of X (the last group may be short)
+                sl = self.match_slice_rows(fake, env)
+                if sl is not None and len(sl[2]) == 1:
+                    rows = SeqV("rows", base=sl[0], per=sl[1], flush=True)
+                    spec = self.rows_spec(rows, node)
+                    saved = getattr(self, "_slice_rows", {})
+                    self._slice_rows = dict(saved)
+                    self._slice_rows[id(sl[2][0])] = ChunkListV(spec)
+                    self.event_stack.append([])
+                    try:
+                        elt = self.eval(node.elt, env)
+                    finally:
+                        self._slice_rows = saved
+                        evs = self.event_stack.pop()
+                        spec["remainder"] = True
+                    if evs:
+                        self.log_event(("loop", evs))
+                    if is_strlike(elt):
+                        return self._rowstrings_list(spec, elt)
+                    self.err(node, "comprehension over row groups does not build strings")
             it = self.eval(g.iter, env)
             if isinstance(it, GenV):
                 forced = self.as_iterable(it, node)
